@@ -174,6 +174,10 @@ def run(ctx):
         ctx.ob('GET-MAX', name, bool(loops) and guard and uses, f.loc(f.body), 'loop over channels %s, NULL peak_info guard %s, reads peaks[k].value %s' % (bool(loops), guard, uses), None)
 
 
+    from engine.run import borrow
+    borrow(ctx, 'C16', ['OWN-OVERWRITE'], 'a PEAK record parsed from the file that is overwritten by a fresh, zeroed one loses the maxima of the earlier sessions')
+
+
 def _same_loop(f, a, b):
     la = [x['id'] for x in f.ancestors(a) if x['k'] in ('WhileStmt', 'ForStmt')]
     lb = [x['id'] for x in f.ancestors(b) if x['k'] in ('WhileStmt', 'ForStmt')]
